@@ -58,8 +58,7 @@ func (v *VM) doCall0(body *bytecode, env *val.Env) *val.Val {
 func (v *VM) call0(body *bytecode, env *val.Env) *val.Val {
 	// 只有 thunk 会产生新的函数, 这里简化处理就不做 frame 了
 	save := v.save()
-	ret := v.doCall0(body, env)
-	v.reset(save)
-	// v.Push(ret)
-	return ret
+	// thunk 求值失败(panic)时也要恢复现场: 惰性函数可能 recover 之后继续使用其他参数
+	defer v.reset(save)
+	return v.doCall0(body, env)
 }
